@@ -969,7 +969,7 @@ def section_draws(ctx, r, corr):
         ctx.tick(f'draws:SA {mode}' + ('' if ss is not None else ':' + got[4:]))
         ctx.case(('sa-draws', pi, mode, got[:40]), nontrivial=len(prob.labels) > 0)
         if mode == 'refuse' and ss is not None:
-            ctx.fail('property', 'SimulatedAnnealingSampler.sample', 'invalid option accepted', f'{call} returned a sample set', repro=PRE + src + call + '\nassert False\n')
+            ctx.fail('property', 'SimulatedAnnealingSampler.sample', 'invalid option accepted', f'{call} returned a sample set', repro=PRE + src + 'try:\n    ' + call + '\nexcept (ValueError, ZeroDivisionError):\n    pass\nelse:\n    raise AssertionError("accepted")\n')
         if mode not in ('refuse', 'one sweep') and ss is None:
             ctx.fail('property', 'SimulatedAnnealingSampler.sample', 'valid options refused', f'{call}: {got}', repro=PRE + src + call + '\n')
         if ss is not None:
@@ -1018,7 +1018,7 @@ def section_draws(ctx, r, corr):
         ctx.tick('draws:Random' + ('' if rs is not None else ':refused'))
         ctx.case(('rnd-draws', pi, nr, got[:40]), nontrivial=len(prob.labels) > 0 and nr > 0)
         if (rs is None) != (nr < 1):
-            ctx.fail('property', 'RandomSampler.sample', 'num_reads', f'{call}: {"refused" if rs is None else "accepted"}', repro=PRE + src + call + '\n' + ('assert False\n' if nr < 1 else ''))
+            ctx.fail('property', 'RandomSampler.sample', 'num_reads', f'{call}: {"refused" if rs is None else "accepted"}', repro=PRE + src + (call + '\n' if nr >= 1 else 'try:\n    ' + call + '\nexcept ValueError:\n    pass\nelse:\n    raise AssertionError("accepted")\n'))
         if rs is not None:
             if len(rs) != nr:
                 ctx.fail('property', 'RandomSampler.sample', 'num_reads', f'{len(rs)} rows for num_reads={nr}', repro=PRE + src + f'assert len({call}) == {nr}\n')
